@@ -6,6 +6,7 @@ import random
 from collections import Counter
 
 from .. import oracles, specs
+from ..framework import viol
 from ..runs import delivery_run
 
 ID = "C05"
@@ -14,7 +15,8 @@ RULE = (
     "case = workflow from the FULL family (random DAGs with failing / stopping / failed-continue branches next to running "
     "ones, early-firing joins with failing or slow branches, synthetic before/after/on-failure stages that fail, "
     "suspending stages without a signal, jump loops that hit the limit, mutex / deferred-choice siblings) x delivery "
-    "schedule (random / LIFO order, withheld acks, one message held back k steps). After the queue is drained the "
+    "schedule (random / LIFO order, withheld acks, one message held back k steps); plus the same family run by three "
+    "worker threads interleaved at SQL-statement granularity (random / PCT schedules). After the queue is drained the "
     "four quiescence predicates are evaluated on store.retrieve(). Non-trivial = quiescent run whose final state is not "
     "all-SUCCEEDED; distinct = (workflow status, sorted multiset of stage statuses, spec shape)."
 )
@@ -47,10 +49,57 @@ def _spec_for(i: int, seed: int) -> dict:
 
 def gen_cases(tier: str, seed: int) -> list[dict]:
     n, k = (80, 20) if tier == "quick" else (500, 80)
-    return [{"spec_i": i, "seed": seed, "nsched": k} for i in range(n)]
+    cases = [{"spec_i": i, "seed": seed, "nsched": k} for i in range(n)]
+    cases += [{"kind": "race", "i": i, "seed": seed, "runs": 12} for i in range(24 if tier == "quick" else 200)]
+    return cases
+
+
+def _race(case: dict) -> dict:
+    """Three workers polling one queue, interleaved at statement granularity (random / PCT)."""
+    from .. import interleave as il
+
+    rng = random.Random(case["seed"] * 127 + case["i"])
+    obs: Counter = Counter()
+    keys: set = set()
+    violations = []
+    for j in range(case["runs"]):
+        spec = _spec_for(rng.randrange(10**6), case["seed"])
+        s = rng.randrange(1 << 30)
+        pol = il.RandomPolicy(s, rng.choice([0.2, 0.4])) if j % 2 else il.PCT(s, rng.randint(2, 5), 500)
+        run, info = il.run_workers(spec, 3, pol)
+        obs["evaluations"] += 1
+        if run is None:
+            obs["scheduler_watchdog"] += 1
+            continue
+        obs["interleaved_runs"] += 1
+        if not run.quiescent:
+            obs["budget_exhausted"] += 1
+            continue
+        obs["quiescent_runs"] += 1
+        v = oracles.attribute(oracles.quiescence_check(run, "C05", spec), run, "C05")
+        if v:
+            lp = oracles.lost_plan_witness(run)
+            if lp:
+                v = [viol("C05/stuck-nonfinal:start-lost-plan-commit-lost-optimistic-lock-and-error-swallowed", f"{lp}; symptoms {[x['sig'] for x in v][:3]}")]
+        for x in v:
+            x.update(spec=spec["name"], policy_seed=s, interleaved=True)
+        violations += v
+        sts = sorted(st["status"] for st in run.state["stages"].values())
+        if any(x != "SUCCEEDED" for x in sts):
+            obs["nonsuccess_final_states"] += 1
+        keys.add(f"race:{run.state['wf']}:{info['trace_hash']}")
+    seen = set()
+    uniq = []
+    for x in violations:
+        if x["sig"] not in seen:
+            seen.add(x["sig"])
+            uniq.append(x)
+    return {"violations": uniq, "obs": dict(obs), "keys": sorted(keys)}
 
 
 def run_case(case: dict) -> dict:
+    if case.get("kind") == "race":
+        return _race(case)
     spec = _spec_for(case["spec_i"], case["seed"])
     rng = random.Random(case["seed"] * 131 + case["spec_i"])
     obs: Counter = Counter()
